@@ -590,6 +590,7 @@ Fixpoint memcached_prog (ideal : bool) (udp : bool) (fuel : nat) : prog :=
                          | Some v =>
                              let ev p := mkEv EV_MC_STORE [w; key; flags; exptime; cnt; p] in
                              if ideal then
+                               if (v <? 0)%Z then PDone 1 else
                                PTake (Z.to_nat v) (fun data =>
                                  match data, Z.to_nat v with
                                  | [], S _ => PDone 1
@@ -668,17 +669,26 @@ Fixpoint http_headers (fuel : nat) (host : bytes) (cl : option N)
         end)
   end.
 
+(* how the handler reads: m_fresh = a new bufio.Reader for every request of the loop,
+   m_short = the payload is one Read of the body (and the rest is discarded by Reads).
+   MODE_CODE is the code as it is; MODE_REF the reference reading (one reader per
+   connection, payload = the first 1024 bytes of the body).  After fixes/C04-http-*.patch
+   the mode of the patched handler becomes (false, _) resp. (_, false). *)
+Record http_mode := mkMode { m_fresh : bool; m_short : bool }.
+Definition MODE_CODE := mkMode true true.
+Definition MODE_REF := mkMode false false.
+
 (* io.Copy(ioutil.Discard, req.Body): 8192-byte Reads of the length-limited body *)
-Fixpoint http_discard (ideal : bool) (fuel : nat) (rem : nat) (k : prog) : prog :=
+Fixpoint http_discard (short : bool) (fuel : nat) (rem : nat) (k : prog) : prog :=
   match fuel with
   | O => PDone OUT_OF_FUEL
   | S f =>
       match rem with
       | O => k
-      | _ => (if ideal then PTake else PRead) (Nat.min (N.to_nat 8192) rem) (fun b =>
+      | _ => (if short then PRead else PTake) (Nat.min (N.to_nat 8192) rem) (fun b =>
                match b with
                | [] => k
-               | _ => http_discard ideal f (rem - length b) k
+               | _ => http_discard short f (rem - length b) k
                end)
       end
   end.
@@ -689,12 +699,12 @@ Definition json_like (b : bytes) : bool :=
   | _, _ => false
   end.
 
-Fixpoint http_prog (cfg : http_cfg) (ideal : bool) (fuel : nat) : prog :=
+Fixpoint http_prog (cfg : http_cfg) (md : http_mode) (fuel : nat) : prog :=
   match fuel with
   | O => PDone OUT_OF_FUEL
   | S f =>
-      let again : prog := if h_loop cfg then http_prog cfg ideal f else PDone 0 in
-      let start (k : prog) : prog := if ideal then k else PNewReader k in
+      let again : prog := if h_loop cfg then http_prog cfg md f else PDone 0 in
+      let start (k : prog) : prog := if m_fresh md then PNewReader k else k in
       start (PUntil LF (fun res =>
         match tp_line res with
         | None => PDone 0                                   (* io.EOF before a request *)
@@ -727,10 +737,10 @@ Fixpoint http_prog (cfg : http_cfg) (ideal : bool) (fuel : nat) : prog :=
                           | BFirstRead =>
                               match n with
                               | O => emit [] again
-                              | _ => (if ideal then PTake else PRead) (Nat.min 1024 n) (fun b =>
+                              | _ => (if m_short md then PRead else PTake) (Nat.min 1024 n) (fun b =>
                                        match b with
                                        | [] => PDone 1                    (* unexpected EOF *)
-                                       | _ => http_discard ideal f (n - length b) (emit b again)
+                                       | _ => http_discard (m_short md) f (n - length b) (emit b again)
                                        end)
                               end
                           | BReadAll =>
@@ -842,12 +852,12 @@ Definition impl_prog (svc : N) (fuel : nat) : prog :=
   else if beq svc SVC_SMTP then smtp_prog fuel SHello 0 []
   else if beq svc SVC_REDIS then redis_prog fuel []
   else if beq svc SVC_MEMCACHED then memcached_prog false false fuel
-  else if beq svc SVC_HTTP then http_prog cfg_http false fuel
-  else if beq svc SVC_DOCKER then http_prog cfg_docker false fuel
-  else if beq svc SVC_ELASTIC then http_prog cfg_elastic false fuel
-  else if beq svc SVC_EOS then http_prog cfg_eos false fuel
-  else if beq svc SVC_ETHEREUM then http_prog cfg_ethereum false fuel
-  else if beq svc SVC_CWMP then http_prog cfg_cwmp false fuel
+  else if beq svc SVC_HTTP then http_prog cfg_http MODE_CODE fuel
+  else if beq svc SVC_DOCKER then http_prog cfg_docker MODE_CODE fuel
+  else if beq svc SVC_ELASTIC then http_prog cfg_elastic MODE_CODE fuel
+  else if beq svc SVC_EOS then http_prog cfg_eos MODE_CODE fuel
+  else if beq svc SVC_ETHEREUM then http_prog cfg_ethereum MODE_CODE fuel
+  else if beq svc SVC_CWMP then http_prog cfg_cwmp MODE_CODE fuel
   else if beq svc SVC_MEMCACHED_UDP then memcached_udp_prog false fuel
   else if beq svc SVC_TFTP then tftp_prog false
   else if beq svc SVC_CS then cs_prog false
@@ -861,12 +871,12 @@ Definition spec_prog (svc : N) (fuel : nat) : prog :=
   else if beq svc SVC_SMTP then smtp_prog fuel SHello 0 []
   else if beq svc SVC_REDIS then redis_prog fuel []
   else if beq svc SVC_MEMCACHED then memcached_prog true false fuel
-  else if beq svc SVC_HTTP then http_prog cfg_http true fuel
-  else if beq svc SVC_DOCKER then http_prog cfg_docker true fuel
-  else if beq svc SVC_ELASTIC then http_prog cfg_elastic true fuel
-  else if beq svc SVC_EOS then http_prog cfg_eos true fuel
-  else if beq svc SVC_ETHEREUM then http_prog cfg_ethereum true fuel
-  else if beq svc SVC_CWMP then http_prog cfg_cwmp true fuel
+  else if beq svc SVC_HTTP then http_prog cfg_http MODE_REF fuel
+  else if beq svc SVC_DOCKER then http_prog cfg_docker MODE_REF fuel
+  else if beq svc SVC_ELASTIC then http_prog cfg_elastic MODE_REF fuel
+  else if beq svc SVC_EOS then http_prog cfg_eos MODE_REF fuel
+  else if beq svc SVC_ETHEREUM then http_prog cfg_ethereum MODE_REF fuel
+  else if beq svc SVC_CWMP then http_prog cfg_cwmp MODE_REF fuel
   else if beq svc SVC_MEMCACHED_UDP then memcached_udp_prog true fuel
   else if beq svc SVC_TFTP then tftp_prog true
   else if beq svc SVC_CS then cs_prog true
